@@ -99,7 +99,9 @@ def _test_inputs_convert():
     import pathlib
 
     out = []
-    p = pathlib.Path("/repo/tests/safeds_stubgen/stubs_generator/test_generate_stubs.py")
+    import os
+
+    p = pathlib.Path(os.environ.get("VERIF_REPO") or "/repo") / "tests/safeds_stubgen/stubs_generator/test_generate_stubs.py"
     try:
         tree = ast.parse(p.read_text())
     except OSError:
